@@ -22,10 +22,10 @@ LEAN_MODULES = ["AllfedModel.Props.C13"]
 TRANSLATORS = [tr_scenarios.run]
 OBLIGATIONS = ["Allfed.C13." + n for n in [
     "C13_exactly_once", "C13_exactly_once_sound", "C13_exactly_once_complete", "C13_flags_of_run", "C13_twice_rejected", "C13_never_flag_error_when_once",
-    "C13_table_wellformed", "C13_families_partition", "C13_flags_agree", "C13_dispatch_covers_every_family",
-    "C13_missing_rejected", "C13_unknown_rejected", "C13_unknown_rejected_before_any_setter", "C13_two_phase",
-    "C13_every_value_dispatches_to_its_family", "C13_means_what_it_says", "C13_dispatch_means_what_it_says", "C13_overrides_spec",
-    "C13_frame", "C13_frame_absent", "C13_override_sets_named_key", "C13_caller_options_unchanged",
+    "C13_table_wellformed", "C13_families_partition", "C13_flags_agree", "C13_dispatch_covers_every_family", "C13_every_family_required_no_default",
+    "C13_missing_rejected", "C13_unknown_rejected", "C13_unknown_rejected_before_any_setter", "C13_two_phase", "C13_patch_rules_ok", "C13_patch_frame",
+    "C13_patches_only_shutoff", "C13_means_what_it_says", "C13_spec_covers_table", "C13_dispatch_means_what_it_says", "C13_overrides_spec",
+    "C13_frame", "C13_frame_absent", "C13_override_sets_named_key", "C13_head_override_writes",
     "C13_head_override_name", "C13_head_override_name_general", "C13_head_keys_only_from_override",
     "C13_strip_counterexample", "C13_strip_mangles_exactly"]]
 RULE = ("(1) every ordered pair of the real Scenarios setters (after a random prefix: nothing / init_global / init_country / init + stored food) and "
@@ -198,7 +198,13 @@ class Env:
 
 
 def setup(ctx):
-    meta = tr_scenarios.run.meta or tr_scenarios.generate(ctx.repo)[1]
+    meta = tr_scenarios.run.meta
+    if meta is None:
+        try:
+            meta = tr_scenarios.generate(ctx.repo)[1]
+        except Exception as e:   # today's source is outside the grammar: run the last good table (the one the built model uses)
+            meta = tr_scenarios.last_good_meta()
+            ctx.notes.append("translator failed (%s); correspondence ran the previously generated table against the current code" % str(e)[:200])
     E = Env()
     E.meta = meta
     E.setters = {s["name"]: s for s in meta["setters"]}
@@ -365,9 +371,15 @@ def part_sequences(ctx, E):
     if live_flags != sorted(init_flags) or any(getattr(fresh, f) is not False for f in live_flags):
         ctx.disagree("init-flags", {}, live_flags, sorted(init_flags))
     fam_real = real_families(ctx, E)
+    for opt, vals, branches in E.families:     # setters reachable from one option family belong together, whatever flags they touch
+        for v, acts in branches:
+            for a in acts:
+                if a[0] == "call":
+                    fam_real[a[1]] = set(fam_real.get(a[1], ())) | {"option:" + opt}
     for nm, t in tab.items():
-        if nm in fam_real and set(t["family"]) != fam_real[nm]:
-            ctx.disagree("setter-family", {"setter": nm}, sorted(fam_real[nm]), t["family"])
+        obs = {f for f in fam_real.get(nm, ()) if not f.startswith("option:")}
+        if nm in fam_real and set(t["family"]) != obs:
+            ctx.disagree("setter-family", {"setter": nm}, sorted(obs), t["family"])
         if nm not in fam_real:
             ctx.count("family-not-observed")
     ctx.extra["setters_in_table"] = len(tab)
